@@ -28,6 +28,10 @@ THEOREMS = [
     "OQuPyVerif.Props.C13.dynamics_sorted_aligned",
     "OQuPyVerif.Props.C13.dynamics_sorted_aligned_all",
     "OQuPyVerif.Props.C13.compute_history_grid",
+    "OQuPyVerif.Props.C13.tebd_compute_reaches", "OQuPyVerif.Props.C13.tebd_compute_steps_nonneg",
+    "OQuPyVerif.Props.C13.tebd_history_grid",
+    "OQuPyVerif.Props.C13.cd_num_steps_given", "OQuPyVerif.Props.C13.cd_num_steps_default",
+    "OQuPyVerif.Props.C13.cd_num_steps_too_long",
 ]
 
 DT_LITS = ["0.1", "0.01", "0.2", "0.05", "0.025", "0.3", "0.001", "0.07", "0.4", "0.125", "1.5", "0.06"]
@@ -64,6 +68,86 @@ def gen_triples(rng, n):
             s, d = rng.uniform(-100, 100), 10 ** rng.uniform(-3, 1)
             out.append((s, d, s + rng.uniform(0, 400) * d, kind))
     return out
+
+
+def num_steps_cases(rng, n):
+    """(api, num_steps or None, shortest finite PT length or None, start, dt, record_all)"""
+    out = [("cd", 0, 4, 1.3, 0.1, True), ("cd", 0, 4, 1.3, 0.1, False),
+           ("cdwf", 0, 3, 0.0, 0.2, True), ("cdwf", 0, 3, 0.0, 0.2, False),
+           ("grad", None, 3, -0.5, 0.1, True), ("cd", None, 4, 0.7, 0.1, True),
+           ("cd", 0, None, 0.2, 0.1, True), ("cd", None, None, 0.0, 0.1, True),
+           ("cd", 5, 4, 0.0, 0.1, True), ("cdwf", None, 3, 0.4, 0.1, False)]
+    for _ in range(n):
+        plen = rng.choice([None, 2, 3, 5])
+        ns = rng.choice([None, 0, 0, 1, 2, 3, 6])
+        api = rng.choice(["cd", "cdwf", "grad"])
+        if api == "grad" and ns == 0:
+            # a gradient over zero steps has no parameters; the backpropagation indexes step -1
+            # and raises IndexError: nothing is returned, so nothing can be mislabelled
+            ns = 1
+        if api == "grad" and plen is None:
+            plen = 3            # the gradient is defined through process tensors only
+        out.append((api, ns, plen, rng.choice([0.0, 0.5, -0.3, 1.7]), rng.choice([0.1, 0.2, 0.05]),
+                    bool(rng.randrange(2))))
+    return out
+
+
+def real_resolve(api, ns, plen, s, d, rec):
+    """call the real entry point; ("ok <steps taken>" | "error <kind>", times)"""
+    import oqupy
+    from oqupy import operators as op
+    from oqupy.gradient import compute_gradient_and_dynamics
+    from . import oq
+    pts = [oq.identity_pt(plen + 2), oq.identity_pt(plen)] if plen is not None else []
+    try:
+        if api == "cd":
+            dyn = oqupy.compute_dynamics(system=oq.cheap_system(), initial_state=op.spin_dm("z+"),
+                                         dt=d, num_steps=ns, start_time=s, process_tensor=pts,
+                                         record_all=rec, progress_type="silent")
+        elif api == "cdwf":
+            tsys = oqupy.TimeDependentSystemWithField(lambda t, a: 0.5 * op.sigma("x"))
+            mfs = oqupy.MeanFieldSystem([tsys], lambda t, st, a: -0.1j * a)
+            dyn = oqupy.compute_dynamics_with_field(
+                mfs, initial_field=1.0, initial_state_list=[op.spin_dm("z+")], dt=d, num_steps=ns,
+                start_time=s, process_tensor_list=[pts], record_all=rec, progress_type="silent")
+        else:
+            psys = oqupy.ParameterizedSystem(lambda x: x * op.sigma("x"))
+            n_par = ns if ns is not None else (plen if plen is not None else 1)
+            _, dyn = compute_gradient_and_dynamics(
+                system=psys, parameters=np.full((2 * max(n_par, 1), 1), 0.3),
+                initial_state=op.spin_dm("z+"), target_derivative=op.spin_dm("x+"),
+                process_tensors=pts, dt=d, num_steps=ns, start_time=s, record_all=rec,
+                progress_type="silent")
+    except (ValueError, AssertionError, TypeError) as e:
+        msg = str(e)
+        kind = "too-long" if "larger than the shortest" in msg else \
+            "unspecified" if "must be specified" in msg else "other:" + msg[:60]
+        return "error " + kind, []
+    times = [float(t) for t in dyn.times]
+    # steps taken: with record_all the number of recorded states minus one; without, read it
+    # off the label through the exact grid (start + n*dt is injective for these small cases)
+    if rec:
+        n = len(times) - 1
+    else:
+        n = next((k for k in range(0, 64) if s + k * d == times[0]), -1)
+    return "ok %d" % n, times
+
+
+def real_tebd_history(s, d, ks, ends):
+    import oqupy
+    from oqupy import operators as op
+    chain = oqupy.SystemChain(hilbert_space_dimensions=[2, 2])
+    chain.add_site_hamiltonian(site=0, hamiltonian=op.sigma("z"))
+    chain.add_nn_hamiltonian(site=0, hamiltonian_l=op.sigma("x"), hamiltonian_r=op.sigma("x"))
+    up = op.spin_dm("z+")
+    tebd = oqupy.PtTebd(initial_augmented_mps=oqupy.AugmentedMPS([up, up]), system_chain=chain,
+                        process_tensors=[None, None],
+                        parameters=oqupy.PtTebdParameters(dt=d, order=1, epsrel=1.0e-4),
+                        dynamics_sites=[0], start_time=s, start_step=ks)
+    r = None
+    for e in ends:
+        r = tebd.compute(end_step=e, progress_type="silent")
+    return tebd.step, [float(t) for t in r["time"]]
 
 
 def correspondence(res, tier, rng):
@@ -164,6 +248,35 @@ def correspondence(res, tier, rng):
         add("cd grad %s %s %s %d" % ("all" if rec else "final", rat(s), rat(d), n),
             " ".join(rat(float(t)) for t in gdyn.times), ("grad", s, d, n, rec))
         res.count("cd:record_all=%s" % rec)
+
+    # how num_steps is resolved (zero steps given explicitly, not given, too long) next to
+    # finite process tensors, through the three real entry points
+    for (api, ns, plen, s, d, rec) in num_steps_cases(rng, 8 if tier == "quick" else 40):
+        got_res, got_times = real_resolve(api, ns, plen, s, d, rec)
+        add("resolve %s %s" % ("none" if ns is None else ns, "none" if plen is None else plen),
+            got_res, ("resolve", api, ns, plen, s, d, rec))
+        if got_res.startswith("ok"):
+            n = int(got_res.split()[1])
+            add("cd %s %s %s %s %d" % (api, "all" if rec else "final", rat(s), rat(d), n),
+                " ".join(rat(t) for t in got_times), ("resolve-times", api, ns, plen, s, d, rec))
+        res.count("resolve:%s:%s" % ("none" if ns is None else ("zero" if ns == 0 else "pos"),
+                                     "nopt" if plen is None else "pt"))
+
+    # PtTebd: histories of compute(end_step) calls on real objects (continuations, no-op repeats,
+    # non-zero start steps)
+    nt = 8 if tier == "quick" else 40
+    for i in range(nt):
+        s, d = rng.choice([0.0, 1.0, -0.3, 0.5]), rng.choice([0.1, 0.2, 0.05])
+        ks = rng.choice([0, 0, 2, 5])
+        ends = [ks + rng.randrange(0, 7) for _ in range(rng.randrange(1, 4))]
+        if i == 0:
+            ks, ends = 0, [3, 5]
+        elif i == 1:
+            ks, ends = 2, [5, 5, 4]
+        step, times = real_tebd_history(s, d, ks, ends)
+        add("histtebd %s %s %d %s" % (rat(s), rat(d), ks, " ".join(str(e) for e in ends)),
+            "%d;%s" % (step, " ".join(rat(t) for t in times)), ("hist-tebd", s, d, ks, ends))
+        res.count("hist:tebd:calls=%d" % len(ends))
 
     # Dynamics.add / MeanFieldDynamics.add with out-of-order times and tagged states / fields
     from oqupy.dynamics import Dynamics, MeanFieldDynamics
@@ -325,6 +438,40 @@ def search(res, rng=None):
                          {"api": "compute_gradient_and_dynamics", "start_time": s, "dt": d,
                           "num_steps": n, "record_all": rec, "expected_times": want,
                           "got_times": got})
+    # (2b) num_steps given explicitly (zero included) is the number of steps taken; not given
+    #      means the shortest finite process tensor; too long is refused
+    for (api, ns, plen, s, d, rec) in num_steps_cases(rng, 12):
+        got_res, got = real_resolve(api, ns, plen, s, d, rec)
+        if ns is not None:
+            want_n = ns if (plen is None or ns <= plen) else None
+        else:
+            want_n = plen
+        if want_n is None:
+            if got_res.startswith("ok"):
+                res.fail("num-steps:%s num_steps=%s pt_len=%s accepted" % (api, ns, plen),
+                         {"api": api, "num_steps": ns, "shortest_pt": plen, "start_time": s, "dt": d,
+                          "record_all": rec, "got": got_res, "got_times": got,
+                          "expected": "refused (nothing to define the grid / longer than the PT)"})
+            continue
+        want = [s + k * d for k in range(want_n + 1)] if rec else [s + want_n * d]
+        if got != want:
+            res.fail("num-steps:%s num_steps=%s pt_len=%s record_all=%s" % (api, ns, plen, rec),
+                     {"api": api, "num_steps": ns, "shortest_pt": plen, "start_time": s, "dt": d,
+                      "record_all": rec, "expected_times": want, "got": got_res, "got_times": got,
+                      "how": "%s(num_steps=%r, start_time=%r, dt=%r, record_all=%r) next to "
+                             "process tensors of length %r" % (api, ns, s, d, rec, plen)})
+    # (2c) PtTebd: any history of compute(end_step) calls ends at max(end steps) and records
+    #      exactly the grid up to there
+    for (s, d, ks, ends) in [(1.0, 0.1, 0, [3, 5]), (1.0, 0.1, 0, [5, 5]), (0.0, 0.2, 2, [4, 3, 6]),
+                             (-0.3, 0.05, 5, [5, 7]), (0.5, 0.1, 0, [0, 2]), (0.0, 0.1, 3, [6])]:
+        step, got = real_tebd_history(s, d, ks, ends)
+        top = max([ks] + ends)
+        want = [s + d * (k - ks) for k in range(ks, top + 1)]
+        if step != top or got != want:
+            res.fail("history:PtTebd start_step=%d end_steps=%s" % (ks, ends),
+                     {"api": "PtTebd.compute", "start_time": s, "dt": d, "start_step": ks,
+                      "end_steps": ends, "expected_final_step": top, "got_final_step": step,
+                      "expected_times": want, "got_times": got})
     # (3) real objects: times of Tempo / MFT histories are the grid, sorted, aligned
     for api in ("tempo", "mft"):
         for (s_l, d_l, ms) in [("0.0", "0.1", [3, 2, 5]), ("0.5", "0.2", [2, 4]), ("-0.3", "0.05", [6])]:
@@ -347,7 +494,9 @@ def run(tier, seed, replay):
                 "s+m*dt, off-grid, before-start, random magnitudes} through the real "
                 "_get_num_step/_time/PtTempo/PtTebd.time vs the generated Lean functions, exact; "
                 "object level: real Tempo/MeanFieldTempo compute-histories, compute_dynamics, "
-                "compute_dynamics_with_field, compute_gradient_and_dynamics (both record_all) vs "
+                "compute_dynamics_with_field, compute_gradient_and_dynamics (both record_all; "
+                "num_steps given / zero / not given / too long next to finite process tensors) and "
+                "PtTebd compute(end_step) histories (continuations, repeats, start steps) vs "
                 "the TimeGrid model, time lists bit-exact.  Non-trivial = not a zero-step count; "
                 "distinct = distinct protocol line.")
     res.assumptions = [
@@ -355,7 +504,9 @@ def run(tier, seed, replay):
         "CPython bisect.bisect on a sorted list returns the count of entries <= x",
         "decimal literals are parsed correctly rounded",
     ]
-    res.not_shown = ["monotonicity of labels needs dt >= 0 (TempoParameters enforces dt > 0)"]
+    res.not_shown = ["monotonicity of labels needs dt >= 0 (TempoParameters enforces dt > 0)",
+                     "compute_gradient_and_dynamics over zero steps raises IndexError in the "
+                     "backpropagation (nothing is returned, so nothing is mislabelled): not covered"]
     fw.standard_pipeline(res, ["StepCount", "DynamicsAdd"], list(THEOREMS))
     if tier == "thorough":
         ok, out = fw.lake_build(["OQuPyVerif.Props.C13Lattice"], timeout=7000)
